@@ -230,6 +230,25 @@ def predicate(case, res):
         mut = run.get("mutation")
         if mut and not (mut["others_same"] and mut["lists_same"] and mut["input_same"]):
             bad.append(("C17:copy-not-independent", "changing one embedded copy changed something else (%s)" % mode, "no change", mut))
+    pr = res.get("parser")
+    if pr is not None:
+        if pr["outcome"] == "other":
+            bad.append(("C17:parser:unexpected-exception", "NeuroMLXMLParser.parse failed unexpectedly", "ok or KeyError", pr["detail"]))
+        elif dangling and pr["outcome"] != "keyerror":
+            bad.append(("C17:parser:dangling-no-keyerror", "NeuroMLXMLParser.parse: an unresolvable reference raises nothing", "KeyError", pr["outcome"]))
+        elif not dangling and pr["outcome"] != "ok":
+            bad.append(("C17:parser:resolvable-but-failed", "NeuroMLXMLParser.parse failed although every reference can be resolved", "ok",
+                        pr["outcome"] + " " + pr["detail"]))
+        elif not dangling:
+            order = [c for c in case["cells"] if c["list"] == "cells"] + [c for c in case["cells"] if c["list"] == "cells2"]
+            for c, o in zip(order, pr["output"]):
+                for kind, pos in (("m", 2), ("b", 3)):
+                    if c[kind]["attr"] is not None and c[kind]["emb"] is None:
+                        attr, emb = o[pos]
+                        if emb is None or attr is not None or emb not in candidates(case, kind, c[kind]["attr"]):
+                            bad.append(("C17:parser:reference-unresolved", "a document read through NeuroMLXMLParser.parse keeps an external "
+                                        "reference unresolved", {"cell": c["id"], "candidates": candidates(case, kind, c[kind]["attr"])},
+                                        {"cell": o[0], "attr": attr, "embedded": emb}))
     if f["outcome"] != "other":
         if f["dump_in_before"] != f["dump_in_after"]:
             bad.append(("C17:overwrite-false-mutates-input", "overwrite=False changed the document passed in", f["dump_in_before"][:400],
@@ -281,6 +300,8 @@ def run(ck):
     ck.gate_static()
     g = Gen(ck.rng)
     cases = fixed_cases() + [g.case() for _ in range(ck.n(200, 2000))]
+    for i, c in enumerate(cases):
+        c["via_parser"] = i < ck.n(80, 400)  # also through NeuroMLXMLParser.parse (file -> include resolution -> fix)
     results = []
     for i in range(0, len(cases), 500):
         results += ck.impl("c17_impl.py", {"cases": cases[i:i + 500]}, timeout=1500)["results"]
@@ -327,6 +348,8 @@ def run(ck):
         if sh["cells2"]:
             ck.tally("with-cell2capools")
         ck.tally("includes:%d" % sh["incs"])
+        if "parser" in res:
+            ck.tally("via-NeuroMLXMLParser:" + res["parser"]["outcome"])
         for k in sh["kinds"]:
             ck.tally("slot:" + k)
         for key, what, exp, obs in predicate(case, res):
